@@ -1,10 +1,48 @@
 use crate::vcore::Tier;
 
+pub mod c01;
+pub mod c02;
+pub mod c03;
+pub mod c04;
+pub mod c05;
 pub mod c06;
+pub mod c07;
+pub mod c08;
+pub mod c09;
+pub mod c10;
+pub mod c11;
+pub mod c12;
+pub mod c13;
+pub mod c14;
+pub mod c15;
+pub mod c16;
+pub mod c17;
+pub mod c18;
+pub mod c19;
+pub mod c20;
 
 pub fn dispatch(prop: &str, tier: Tier, seed: u64, replay: Option<String>) -> i32 {
     match prop {
+        "C01" => c01::run(tier, seed, replay),
+        "C02" => c02::run(tier, seed, replay),
+        "C03" => c03::run(tier, seed, replay),
+        "C04" => c04::run(tier, seed, replay),
+        "C05" => c05::run(tier, seed, replay),
         "C06" => c06::run(tier, seed, replay),
+        "C07" => c07::run(tier, seed, replay),
+        "C08" => c08::run(tier, seed, replay),
+        "C09" => c09::run(tier, seed, replay),
+        "C10" => c10::run(tier, seed, replay),
+        "C11" => c11::run(tier, seed, replay),
+        "C12" => c12::run(tier, seed, replay),
+        "C13" => c13::run(tier, seed, replay),
+        "C14" => c14::run(tier, seed, replay),
+        "C15" => c15::run(tier, seed, replay),
+        "C16" => c16::run(tier, seed, replay),
+        "C17" => c17::run(tier, seed, replay),
+        "C18" => c18::run(tier, seed, replay),
+        "C19" => c19::run(tier, seed, replay),
+        "C20" => c20::run(tier, seed, replay),
         _ => {
             eprintln!("MACHINERY: unknown property {}", prop);
             2
